@@ -1075,7 +1075,7 @@ func (ex *Exec) instantiateAt(pc []*Term, hints []*Term) []*Term {
 	ts := ex.ts
 	var out []*Term
 	seen := map[*Term]bool{}
-	budget := 600
+	budget := 3000
 	// inst returns ground consequences of fact t (true under the guards collected so far)
 	var visit func(t *Term, guard []*Term, depth int)
 	emit := func(t *Term, guard []*Term) {
